@@ -127,6 +127,8 @@ def rx_src(r, top=True):
 # Spelling option for closures: `lambda v_, x=x: ...` (every name of the grammar that the closure mentions is also
 # bound as a default argument - a common Python idiom; same meaning, since defaults are evaluated where the lambda is).
 LAM_DEFAULTS = False
+# Spelling option for Sep(...): options passed by position instead of by keyword
+SEP_POSITIONAL = False
 
 
 def _py_vars(P, acc):
@@ -306,6 +308,13 @@ def _expr(e, st, bm):
         a, b = X(e[1]), X(e[2])
         if d and em and not rq and not st.ctor():
             return '(%s%s%s)' % (a, st.op('/?' if t else '//'), b)
+        if SEP_POSITIONAL:
+            # the options by position, in the documented order (trailing defaults left out)
+            vals = [d, t, em, rq]
+            dflt = [True, False, True, False]
+            while vals and vals[-1] == dflt[len(vals) - 1]:
+                vals.pop()
+            return 'Sep(%s)' % ', '.join([a, b] + ['True' if v else 'False' for v in vals])
         kw = []
         if not d:
             kw.append('discard_separators=False')
